@@ -34,7 +34,7 @@ type c20Target struct {
 	Job      string `json:"job"`
 	Prefix   int    `json:"failuresBeforeSuccess"`
 	Latency  int    `json:"latencyMs"`
-	FailKind string `json:"failKind"` // 500 | hangup (connection closed in the middle of the body)
+	FailKind string `json:"failKind"` // 500 | hangup (connection closed in the middle of the body) | 204
 	Removal  string `json:"removal"`  // "" | remove | readd
 	NSamples int    `json:"samples"`
 }
@@ -91,7 +91,7 @@ func c20Gen(w *core.WorkerCtx, idx int) *c20Case {
 			t.Prefix = 1 + r.Intn(c.MaxPrefix)
 		}
 		if r.Intn(3) == 0 {
-			t.FailKind = "hangup"
+			t.FailKind = r.PickS("hangup", "hangup", "204")
 		}
 		switch r.Intn(6) {
 		case 0:
@@ -168,6 +168,11 @@ func (f *farm) serve(w http.ResponseWriter, r *http.Request) {
 	if ok {
 		w.Header().Set("Content-Type", "text/plain; version=0.0.4")
 		w.Write(f.payload[id])
+		return
+	}
+	if t.FailKind == "204" {
+		// not an error status, not a scrape either: an exporter still warming up
+		w.WriteHeader(204)
 		return
 	}
 	if t.FailKind == "hangup" {
